@@ -45,6 +45,15 @@ fn optimization_pass(lines: Vec<Line>) -> Vec<Line> {
     ret
 }
 
+// LoadOffset/StoreOffset carry a 16-bit stack offset, a register operand only 15 bits
+// (see Reg::encode): an offset outside that range must stay a separate load/store.
+const REG_OFFSET_MIN: i16 = -16384;
+const REG_OFFSET_MAX: i16 = 16383;
+
+fn fits_reg_offset(offset: i16) -> bool {
+    offset >= REG_OFFSET_MIN && offset <= REG_OFFSET_MAX
+}
+
 fn peephole1_helper(lines: &[Line], index: usize, _ret: &mut Vec<Line>) -> bool {
     match lines[index].clone() {
         Line::Label(_) => false,
@@ -139,7 +148,9 @@ fn peephole2_helper(lines: &[Line], index: usize, ret: &mut Vec<Line>) -> bool {
                         true
                     }
                     // LOAD(X) <ANY>(_, _, TOP) -> __(_, _, X)
-                    (Instr::LoadOffset(offset), instr2) if instr2.second_arg_is_top() => {
+                    (Instr::LoadOffset(offset), instr2)
+                        if instr2.second_arg_is_top() && fits_reg_offset(offset) =>
+                    {
                         ret.push(Line::Instr {
                             instr: instr2.clone().replace_second_arg(Reg::Offset(offset)),
                             lineno,
@@ -150,7 +161,8 @@ fn peephole2_helper(lines: &[Line], index: usize, ret: &mut Vec<Line>) -> bool {
                     }
                     // LOAD(X) __(_, TOP, Offset(Y) | Imm) -> __(_, X, Offset(Y) | Imm)
                     (Instr::LoadOffset(offset), instr2)
-                        if instr2.first_arg_is_top_and_second_arg_is_offset_or_imm() =>
+                        if instr2.first_arg_is_top_and_second_arg_is_offset_or_imm()
+                            && fits_reg_offset(offset) =>
                     {
                         ret.push(Line::Instr {
                             instr: instr2.clone().replace_first_arg(Reg::Offset(offset)),
@@ -161,7 +173,9 @@ fn peephole2_helper(lines: &[Line], index: usize, ret: &mut Vec<Line>) -> bool {
                         true
                     }
                     // __(TOP, R1, R2) STORE(N) -> __(N, R1, R2)
-                    (instr1, Instr::StoreOffset(offset)) if instr1.dest_is_top() => {
+                    (instr1, Instr::StoreOffset(offset))
+                        if instr1.dest_is_top() && fits_reg_offset(*offset) =>
+                    {
                         ret.push(Line::Instr {
                             instr: instr1.replace_dest(Reg::Offset(*offset)),
                             lineno,
